@@ -308,204 +308,238 @@ package notify
 //@   at call context.WithValue assert [stored-under-its-own-key] arg0 == ctx && typeis(arg1, notifyKey) && unbox(arg1, notifyKey) == keyReceiverName && typeis(arg2, string) && unbox(arg2, string) == rcv
 //@   ensures [the-derived-context] count("context.WithValue") == 1 && result == ret("context.WithValue")
 //@   noeffect context.WithValue
+//@   assigns nothing
 //@ func WithGroupKey
 //@   props C04 C20
 //@   nosafe
 //@   at call context.WithValue assert [stored-under-its-own-key] arg0 == ctx && typeis(arg1, notifyKey) && unbox(arg1, notifyKey) == keyGroupKey && typeis(arg2, string) && unbox(arg2, string) == s
 //@   ensures [the-derived-context] count("context.WithValue") == 1 && result == ret("context.WithValue")
 //@   noeffect context.WithValue
+//@   assigns nothing
 //@ func WithFiringAlerts
 //@   props C04 C20
 //@   nosafe
 //@   at call context.WithValue assert [stored-under-its-own-key] arg0 == ctx && typeis(arg1, notifyKey) && unbox(arg1, notifyKey) == keyFiringAlerts && typeis(arg2, []uint64) && unbox(arg2, []uint64) == alerts
 //@   ensures [the-derived-context] count("context.WithValue") == 1 && result == ret("context.WithValue")
 //@   noeffect context.WithValue
+//@   assigns nothing
 //@ func WithResolvedAlerts
 //@   props C04 C20
 //@   nosafe
 //@   at call context.WithValue assert [stored-under-its-own-key] arg0 == ctx && typeis(arg1, notifyKey) && unbox(arg1, notifyKey) == keyResolvedAlerts && typeis(arg2, []uint64) && unbox(arg2, []uint64) == alerts
 //@   ensures [the-derived-context] count("context.WithValue") == 1 && result == ret("context.WithValue")
 //@   noeffect context.WithValue
+//@   assigns nothing
 //@ func WithGroupLabels
 //@   props C04 C20
 //@   nosafe
 //@   at call context.WithValue assert [stored-under-its-own-key] arg0 == ctx && typeis(arg1, notifyKey) && unbox(arg1, notifyKey) == keyGroupLabels && typeis(arg2, model.LabelSet) && unbox(arg2, model.LabelSet) == lset
 //@   ensures [the-derived-context] count("context.WithValue") == 1 && result == ret("context.WithValue")
 //@   noeffect context.WithValue
+//@   assigns nothing
 //@ func WithRouteLabels
 //@   props C04 C20
 //@   nosafe
 //@   at call context.WithValue assert [stored-under-its-own-key] arg0 == ctx && typeis(arg1, notifyKey) && unbox(arg1, notifyKey) == keyRouteLabels && typeis(arg2, model.LabelSet) && unbox(arg2, model.LabelSet) == rl
 //@   ensures [the-derived-context] count("context.WithValue") == 1 && result == ret("context.WithValue")
 //@   noeffect context.WithValue
+//@   assigns nothing
 //@ func WithNow
 //@   props C04 C20
 //@   nosafe
 //@   at call context.WithValue assert [stored-under-its-own-key] arg0 == ctx && typeis(arg1, notifyKey) && unbox(arg1, notifyKey) == keyNow && typeis(arg2, time.Time) && unbox(arg2, time.Time) == t
 //@   ensures [the-derived-context] count("context.WithValue") == 1 && result == ret("context.WithValue")
 //@   noeffect context.WithValue
+//@   assigns nothing
 //@ func WithRepeatInterval
 //@   props C04 C20
 //@   nosafe
 //@   at call context.WithValue assert [stored-under-its-own-key] arg0 == ctx && typeis(arg1, notifyKey) && unbox(arg1, notifyKey) == keyRepeatInterval && typeis(arg2, time.Duration) && unbox(arg2, time.Duration) == t
 //@   ensures [the-derived-context] count("context.WithValue") == 1 && result == ret("context.WithValue")
 //@   noeffect context.WithValue
+//@   assigns nothing
 //@ func WithMuteTimeIntervals
 //@   props C04 C20
 //@   nosafe
 //@   at call context.WithValue assert [stored-under-its-own-key] arg0 == ctx && typeis(arg1, notifyKey) && unbox(arg1, notifyKey) == keyMuteTimeIntervals && typeis(arg2, []string) && unbox(arg2, []string) == mt
 //@   ensures [the-derived-context] count("context.WithValue") == 1 && result == ret("context.WithValue")
 //@   noeffect context.WithValue
+//@   assigns nothing
 //@ func WithActiveTimeIntervals
 //@   props C04 C20
 //@   nosafe
 //@   at call context.WithValue assert [stored-under-its-own-key] arg0 == ctx && typeis(arg1, notifyKey) && unbox(arg1, notifyKey) == keyActiveTimeIntervals && typeis(arg2, []string) && unbox(arg2, []string) == at
 //@   ensures [the-derived-context] count("context.WithValue") == 1 && result == ret("context.WithValue")
 //@   noeffect context.WithValue
+//@   assigns nothing
 //@ func WithRouteID
 //@   props C04 C20
 //@   nosafe
 //@   at call context.WithValue assert [stored-under-its-own-key] arg0 == ctx && typeis(arg1, notifyKey) && unbox(arg1, notifyKey) == keyRouteID && typeis(arg2, string) && unbox(arg2, string) == routeID
 //@   ensures [the-derived-context] count("context.WithValue") == 1 && result == ret("context.WithValue")
 //@   noeffect context.WithValue
+//@   assigns nothing
 //@ func WithNotificationReason
 //@   props C04 C20
 //@   nosafe
 //@   at call context.WithValue assert [stored-under-its-own-key] arg0 == ctx && typeis(arg1, notifyKey) && unbox(arg1, notifyKey) == keyNotificationReason && typeis(arg2, NotifyReason) && unbox(arg2, NotifyReason) == reason
 //@   ensures [the-derived-context] count("context.WithValue") == 1 && result == ret("context.WithValue")
 //@   noeffect context.WithValue
+//@   assigns nothing
 //@ func WithMutedAlerts
 //@   props C04 C20
 //@   nosafe
 //@   at call context.WithValue assert [stored-under-its-own-key] arg0 == ctx && typeis(arg1, notifyKey) && unbox(arg1, notifyKey) == keyMutedAlerts && typeis(arg2, map[uint64]struct{}) && unbox(arg2, map[uint64]struct{}) == alerts
 //@   ensures [the-derived-context] count("context.WithValue") == 1 && result == ret("context.WithValue")
 //@   noeffect context.WithValue
+//@   assigns nothing
 //@ func WithAggrGroupID
 //@   props C04 C20
 //@   nosafe
 //@   at call context.WithValue assert [stored-under-its-own-key] arg0 == ctx && typeis(arg1, notifyKey) && unbox(arg1, notifyKey) == keyAggrGroupID && typeis(arg2, string) && unbox(arg2, string) == id
 //@   ensures [the-derived-context] count("context.WithValue") == 1 && result == ret("context.WithValue")
 //@   noeffect context.WithValue
+//@   assigns nothing
 //@ func WithFlushID
 //@   props C04 C20
 //@   nosafe
 //@   at call context.WithValue assert [stored-under-its-own-key] arg0 == ctx && typeis(arg1, notifyKey) && unbox(arg1, notifyKey) == keyFlushID && typeis(arg2, uint64) && unbox(arg2, uint64) == id
 //@   ensures [the-derived-context] count("context.WithValue") == 1 && result == ret("context.WithValue")
 //@   noeffect context.WithValue
+//@   assigns nothing
 //@ func WithGroupMatchers
 //@   props C04 C20
 //@   nosafe
 //@   at call context.WithValue assert [stored-under-its-own-key] arg0 == ctx && typeis(arg1, notifyKey) && unbox(arg1, notifyKey) == keyGroupMatchers && typeis(arg2, labels.Matchers) && unbox(arg2, labels.Matchers) == matchers
 //@   ensures [the-derived-context] count("context.WithValue") == 1 && result == ret("context.WithValue")
 //@   noeffect context.WithValue
+//@   assigns nothing
 //@ func WithNflogStore
 //@   props C04 C20
 //@   nosafe
 //@   at call context.WithValue assert [stored-under-its-own-key] arg0 == ctx && typeis(arg1, notifyKey) && unbox(arg1, notifyKey) == keyNflogStore && typeis(arg2, *nflog.Store) && unbox(arg2, *nflog.Store) == store
 //@   ensures [the-derived-context] count("context.WithValue") == 1 && result == ret("context.WithValue")
 //@   noeffect context.WithValue
+//@   assigns nothing
 //@ func RepeatInterval
 //@   props C04 C20
 //@   nosafe
 //@   at call Context).Value assert [read-under-its-own-key] arg0 == ctx && typeis(arg1, notifyKey) && unbox(arg1, notifyKey) == keyRepeatInterval
 //@   ensures [the-stored-value-of-its-type] count("Context).Value") == 1 && result1 == typeis(ret("Context).Value"), time.Duration) && (result1 ==> result0 == unbox(ret("Context).Value"), time.Duration))
 //@   noeffect Context).Value
+//@   assigns nothing
 //@ func ReceiverName
 //@   props C04 C20
 //@   nosafe
 //@   at call Context).Value assert [read-under-its-own-key] arg0 == ctx && typeis(arg1, notifyKey) && unbox(arg1, notifyKey) == keyReceiverName
 //@   ensures [the-stored-value-of-its-type] count("Context).Value") == 1 && result1 == typeis(ret("Context).Value"), string) && (result1 ==> result0 == unbox(ret("Context).Value"), string))
 //@   noeffect Context).Value
+//@   assigns nothing
 //@ func GroupKey
 //@   props C04 C20
 //@   nosafe
 //@   at call Context).Value assert [read-under-its-own-key] arg0 == ctx && typeis(arg1, notifyKey) && unbox(arg1, notifyKey) == keyGroupKey
 //@   ensures [the-stored-value-of-its-type] count("Context).Value") == 1 && result1 == typeis(ret("Context).Value"), string) && (result1 ==> result0 == unbox(ret("Context).Value"), string))
 //@   noeffect Context).Value
+//@   assigns nothing
 //@ func GroupLabels
 //@   props C04 C20
 //@   nosafe
 //@   at call Context).Value assert [read-under-its-own-key] arg0 == ctx && typeis(arg1, notifyKey) && unbox(arg1, notifyKey) == keyGroupLabels
 //@   ensures [the-stored-value-of-its-type] count("Context).Value") == 1 && result1 == typeis(ret("Context).Value"), model.LabelSet) && (result1 ==> result0 == unbox(ret("Context).Value"), model.LabelSet))
 //@   noeffect Context).Value
+//@   assigns nothing
 //@ func RouteLabels
 //@   props C04 C20
 //@   nosafe
 //@   at call Context).Value assert [read-under-its-own-key] arg0 == ctx && typeis(arg1, notifyKey) && unbox(arg1, notifyKey) == keyRouteLabels
 //@   ensures [the-stored-value-of-its-type] count("Context).Value") == 1 && result1 == typeis(ret("Context).Value"), model.LabelSet) && (result1 ==> result0 == unbox(ret("Context).Value"), model.LabelSet))
 //@   noeffect Context).Value
+//@   assigns nothing
 //@ func Now
 //@   props C04 C20
 //@   nosafe
 //@   at call Context).Value assert [read-under-its-own-key] arg0 == ctx && typeis(arg1, notifyKey) && unbox(arg1, notifyKey) == keyNow
 //@   ensures [the-stored-value-of-its-type] count("Context).Value") == 1 && result1 == typeis(ret("Context).Value"), time.Time) && (result1 ==> result0 == unbox(ret("Context).Value"), time.Time))
 //@   noeffect Context).Value
+//@   assigns nothing
 //@ func FiringAlerts
 //@   props C04 C20
 //@   nosafe
 //@   at call Context).Value assert [read-under-its-own-key] arg0 == ctx && typeis(arg1, notifyKey) && unbox(arg1, notifyKey) == keyFiringAlerts
 //@   ensures [the-stored-value-of-its-type] count("Context).Value") == 1 && result1 == typeis(ret("Context).Value"), []uint64) && (result1 ==> result0 == unbox(ret("Context).Value"), []uint64))
 //@   noeffect Context).Value
+//@   assigns nothing
 //@ func ResolvedAlerts
 //@   props C04 C20
 //@   nosafe
 //@   at call Context).Value assert [read-under-its-own-key] arg0 == ctx && typeis(arg1, notifyKey) && unbox(arg1, notifyKey) == keyResolvedAlerts
 //@   ensures [the-stored-value-of-its-type] count("Context).Value") == 1 && result1 == typeis(ret("Context).Value"), []uint64) && (result1 ==> result0 == unbox(ret("Context).Value"), []uint64))
 //@   noeffect Context).Value
+//@   assigns nothing
 //@ func MuteTimeIntervalNames
 //@   props C04 C20
 //@   nosafe
 //@   at call Context).Value assert [read-under-its-own-key] arg0 == ctx && typeis(arg1, notifyKey) && unbox(arg1, notifyKey) == keyMuteTimeIntervals
 //@   ensures [the-stored-value-of-its-type] count("Context).Value") == 1 && result1 == typeis(ret("Context).Value"), []string) && (result1 ==> result0 == unbox(ret("Context).Value"), []string))
 //@   noeffect Context).Value
+//@   assigns nothing
 //@ func ActiveTimeIntervalNames
 //@   props C04 C20
 //@   nosafe
 //@   at call Context).Value assert [read-under-its-own-key] arg0 == ctx && typeis(arg1, notifyKey) && unbox(arg1, notifyKey) == keyActiveTimeIntervals
 //@   ensures [the-stored-value-of-its-type] count("Context).Value") == 1 && result1 == typeis(ret("Context).Value"), []string) && (result1 ==> result0 == unbox(ret("Context).Value"), []string))
 //@   noeffect Context).Value
+//@   assigns nothing
 //@ func RouteID
 //@   props C04 C20
 //@   nosafe
 //@   at call Context).Value assert [read-under-its-own-key] arg0 == ctx && typeis(arg1, notifyKey) && unbox(arg1, notifyKey) == keyRouteID
 //@   ensures [the-stored-value-of-its-type] count("Context).Value") == 1 && result1 == typeis(ret("Context).Value"), string) && (result1 ==> result0 == unbox(ret("Context).Value"), string))
 //@   noeffect Context).Value
+//@   assigns nothing
 //@ func NotificationReason
 //@   props C04 C20
 //@   nosafe
 //@   at call Context).Value assert [read-under-its-own-key] arg0 == ctx && typeis(arg1, notifyKey) && unbox(arg1, notifyKey) == keyNotificationReason
 //@   ensures [the-stored-value-of-its-type] count("Context).Value") == 1 && result1 == typeis(ret("Context).Value"), NotifyReason) && (result1 ==> result0 == unbox(ret("Context).Value"), NotifyReason))
 //@   noeffect Context).Value
+//@   assigns nothing
 //@ func MutedAlerts
 //@   props C04 C20
 //@   nosafe
 //@   at call Context).Value assert [read-under-its-own-key] arg0 == ctx && typeis(arg1, notifyKey) && unbox(arg1, notifyKey) == keyMutedAlerts
 //@   ensures [the-stored-value-of-its-type] count("Context).Value") == 1 && result1 == typeis(ret("Context).Value"), map[uint64]struct{}) && (result1 ==> result0 == unbox(ret("Context).Value"), map[uint64]struct{}))
 //@   noeffect Context).Value
+//@   assigns nothing
 //@ func AggrGroupID
 //@   props C04 C20
 //@   nosafe
 //@   at call Context).Value assert [read-under-its-own-key] arg0 == ctx && typeis(arg1, notifyKey) && unbox(arg1, notifyKey) == keyAggrGroupID
 //@   ensures [the-stored-value-of-its-type] count("Context).Value") == 1 && result1 == typeis(ret("Context).Value"), string) && (result1 ==> result0 == unbox(ret("Context).Value"), string))
 //@   noeffect Context).Value
+//@   assigns nothing
 //@ func FlushID
 //@   props C04 C20
 //@   nosafe
 //@   at call Context).Value assert [read-under-its-own-key] arg0 == ctx && typeis(arg1, notifyKey) && unbox(arg1, notifyKey) == keyFlushID
 //@   ensures [the-stored-value-of-its-type] count("Context).Value") == 1 && result1 == typeis(ret("Context).Value"), uint64) && (result1 ==> result0 == unbox(ret("Context).Value"), uint64))
 //@   noeffect Context).Value
+//@   assigns nothing
 //@ func GroupMatchers
 //@   props C04 C20
 //@   nosafe
 //@   at call Context).Value assert [read-under-its-own-key] arg0 == ctx && typeis(arg1, notifyKey) && unbox(arg1, notifyKey) == keyGroupMatchers
 //@   ensures [the-stored-value-of-its-type] count("Context).Value") == 1 && result1 == typeis(ret("Context).Value"), labels.Matchers) && (result1 ==> result0 == unbox(ret("Context).Value"), labels.Matchers))
 //@   noeffect Context).Value
+//@   assigns nothing
 //@ func NflogStore
 //@   props C04 C20
 //@   nosafe
 //@   at call Context).Value assert [read-under-its-own-key] arg0 == ctx && typeis(arg1, notifyKey) && unbox(arg1, notifyKey) == keyNflogStore
 //@   ensures [the-stored-value-of-its-type] count("Context).Value") == 1 && result1 == typeis(ret("Context).Value"), *nflog.Store) && (result1 ==> result0 == unbox(ret("Context).Value"), *nflog.Store))
 //@   noeffect Context).Value
+//@   assigns nothing
 
 // C20/C01: the routing stage hands the batch to the pipeline registered under the receiver named in the context -
 // unchanged and to no other; a missing receiver name or pipeline is an error, never a silent drop.
